@@ -1,4 +1,5 @@
 """C18 — Send/Sync in, Send/Sync out: decided by rustc's trait solver on a generated witness crate."""
+from ..facts import base
 from .. import witness
 from ..sites import FUTURE, STREAM
 from ..terms import simple_name
@@ -96,7 +97,7 @@ def run(ctx):
                 discharged += 1
                 ctx.ok(rule, where, "witness %s holds" % w["name"], sample={"obligation": w["obligation"]})
         # ---- twin run: each twin must be rejected, nothing else may be
-        if ctx.tier == "thorough" or cfg == "std":
+        if ctx.tier == "thorough" or base(cfg) == "std":
             try:
                 res2 = witness.check(cfg, True, index)
             except witness.Inconclusive as e:
@@ -118,9 +119,9 @@ def run(ctx):
                 if not by_name[name]["twin"] and name not in res["errors"]:
                     ctx.fail("C18.SEND" if by_name[name]["kind"] == "send" else "C18.SYNC", "witness::" + name,
                              "witness fails only in the twin build: %s" % (errs[0]["message"] or "")[:160])
-        ctx.floor("C18.SEND", cfg, 150 if cfg != "core" else 80)
-        ctx.floor("C18.SYNC", cfg, 100 if cfg != "core" else 80)
-        if ctx.tier == "thorough" or cfg == "std":
+        ctx.floor("C18.SEND", cfg, 150 if base(cfg) != "core" else 80)
+        ctx.floor("C18.SYNC", cfg, 100 if base(cfg) != "core" else 80)
+        if ctx.tier == "thorough" or base(cfg) == "std":
             ctx.floor("C18.TWIN", cfg, 40)
     return {
         "obligations": obligations,
